@@ -54,6 +54,8 @@ sqrt = z3.Function('sqrt', R, R)
 absr = z3.Function('absr', R, R)
 floor = z3.Function('floor', R, I)
 log2 = z3.Function('log2', R, R)
+sqf = z3.Function('sqf', R, R)                       # x ** 2 (kept abstract: only sqf(x) >= 0 is used)
+divf = z3.Function('divf', R, R, R)                  # x / c  (kept abstract: sign and monotonicity for c > 0)
 
 
 def A(vs, body, pats):
@@ -208,6 +210,10 @@ GROUPS['pow2r'] = [
 GROUPS['cscale'] = [
     A([x_, y_, G_], cscale(x_, cscale(y_, G_)) == cscale(x_ * y_, G_), [cscale(x_, cscale(y_, G_))]),
     A([G_], cscale(1, G_) == G_, [cscale(1, G_)]),
+]
+GROUPS['sq'] = [
+    A([x_], sqf(x_) >= 0, [sqf(x_)]),
+    A([x_, y_], z3.Implies(z3.And(y_ > 0, x_ >= 0), divf(x_, y_) >= 0), [divf(x_, y_)]),
 ]
 GROUPS['real'] = [
     A([x_], z3.Implies(x_ >= 0, z3.And(sqrt(x_) >= 0, sqrt(x_) * sqrt(x_) == x_)), [sqrt(x_)]),
